@@ -1044,7 +1044,7 @@ pub fn run(prop: &str) {
     let mut ctx = Ctx { prop: prop.to_string(), rep: &mut rep, drv: &mut drv, kinds, best: BTreeMap::new(), abstract_ts: None, templates: BTreeMap::new(), cli: args.extra.get("cli").cloned().unwrap_or_default(), scratch: args.scratch.clone(), cli_budget: 0, cli_seen: 0, cli_group: 0, replaying: args.replay.is_some() };
     // the CLI leg of the import stream: a modest number of process spawns
     if !args.scratch.is_empty() && std::path::Path::new(&ctx.cli).is_file() {
-        ctx.cli_budget = if prop == "C03" { args.budget(100, 1000) } else { args.budget(50, 500) };
+        ctx.cli_budget = if prop == "C03" { args.budget(70, 1000) } else { args.budget(50, 500) };
     } else {
         ctx.rep.count("cli-leg:skipped-no-binary-or-scratch");
         ctx.rep.notes.push(format!("CLI leg skipped: --cli {:?} is not a file or --scratch is empty", ctx.cli));
@@ -1104,7 +1104,9 @@ pub fn run(prop: &str) {
     // hash (property, seed): adjacent SplitMix seeds would give the same stream shifted by one draw
     let mut rng = Rng::new(nvh::report::fnv(&format!("{prop}:{}", args.seed)));
     let search = args.extra.get("search").map_or(false, |s| s == "1");
-    let n_schemas = args.budget(60, 600) * if search { 2 } else { 1 };
+    // C03 does more per schema group (6 mutants per document, labelled import projects, CLI leg): fewer groups keep the
+    // quick tier at ≈ 20 s on an idle machine and well under a minute on a loaded one
+    let n_schemas = if prop == "C03" { args.budget(40, 500) } else { args.budget(60, 600) } * if search { 2 } else { 1 };
     let docs_per_schema = 6;
     let mut sampled = 0;
     // the built-in definitions as the real pipeline adds them to every schema (taken once from a fixed one-line schema):
